@@ -87,16 +87,19 @@ def setup() -> None:
 
 
 class Cfg:
-    def __init__(self, is_async, ae, lc, cache_size, memo):
+    def __init__(self, is_async, ae, lc, cache_size, memo, cls=0):
         self.is_async, self.ae, self.lc, self.cache_size, self.memo = is_async, ae, lc, cache_size, memo
+        self.cls = cls  # 0 Environment, 1 NativeEnvironment, 2 SandboxedEnvironment
 
     def env(self, P):
         import jinja2
+        from jinja2.nativetypes import NativeEnvironment
+        from jinja2.sandbox import SandboxedEnvironment
 
-        e = jinja2.Environment(
+        e = (jinja2.Environment, NativeEnvironment, SandboxedEnvironment)[self.cls](
             loader=jinja2.DictLoader(P.templates), enable_async=self.is_async, autoescape=AE_MODES[self.ae],
             cache_size=self.cache_size, extensions=["jinja2.ext.loopcontrols"] if self.lc else [],
-            bytecode_cache=CodeMemo(("c29", self.is_async, self.ae, self.lc)) if self.memo else None,
+            bytecode_cache=CodeMemo(("c29", self.is_async, self.ae, self.lc, self.cls)) if self.memo else None,
         )
         T.scan_replace_locks(e.cache) if e.cache is not None and not isinstance(e.cache, dict) else None
         if self.is_async:
@@ -107,6 +110,7 @@ class Cfg:
                 return W.f1(x) + 1
         e.globals["gf"] = gf
         e.globals["gn"] = 3
+        e.globals["gd"] = {"k1": 1, "k2": [2]}
         return e
 
 
@@ -135,16 +139,28 @@ def _render(env, entry, api, data, tape):
         if api == 0:
             r = tmpl.render(data)
         elif api == 1:
-            r = "".join(tmpl.generate(**data))
+            r = "".join(map(str, tmpl.generate(**data)))
         elif api == 2:
             st = tmpl.stream(data)
             st.enable_buffering(2)
-            r = "".join(st)
+            r = "".join(map(str, st))
         else:
             if env.is_async:
                 r = tmpl.render(**data)
             else:
                 r = str(tmpl.make_module(data))
+        if not isinstance(r, str):
+            # native environments return Python values; a container belongs to the caller, who may change it
+            text = "native:" + type(r).__name__ + ":" + repr(r)
+            if id(r) in _container_ids([data, dict(env.globals), TG]):
+                pass  # the template returned one of its inputs itself: not the caller's to change here
+            elif isinstance(r, list):
+                r.append("caller-owned")
+            elif isinstance(r, dict):
+                r["caller-owned"] = 1
+            elif isinstance(r, set):
+                r.add("caller-owned")
+            r = text
         if internal_leak(r):
             return ("ok-with-template-internal-object", scrub(r)), tmpl
         return ("ok", scrub(r)), tmpl
@@ -154,8 +170,27 @@ def _render(env, entry, api, data, tape):
         raise
     except Exception as e:
         k = ("raised", exc_key(e))
-        e.__traceback__ = None
+        e.with_traceback(None)  # C-level: works for exception classes that forbid attribute assignment
         return k, None
+
+
+def _container_ids(root) -> set:
+    seen: set = set()
+    stack = [root]
+    while stack:
+        o = stack.pop()
+        if isinstance(o, (str, bytes, int, float, bool, type(None))) or id(o) in seen:
+            continue
+        seen.add(id(o))
+        if isinstance(o, dict):
+            stack.extend(o.values())
+        elif isinstance(o, (list, tuple, set, frozenset)):
+            stack.extend(o)
+        else:
+            d = getattr(o, "__dict__", None)
+            if isinstance(d, dict):
+                stack.extend(d.values())
+    return seen
 
 
 ISOLATED = [0]  # how many more references of this run are computed in pristine forked processes (sim/isolate.py)
@@ -182,7 +217,7 @@ def _reference(cfg, P, entry, api, dseed):
         # this run's references come from pristine interpreters
         ISOLATED[0] -= 1
         return isolate.call("props.c29", "_reference_job", P.templates,
-                            (cfg.is_async, cfg.ae, cfg.lc, cfg.cache_size, False), entry, api, dseed, dict(TG))
+                            (cfg.is_async, cfg.ae, cfg.lc, cfg.cache_size, False, cfg.cls), entry, api, dseed, dict(TG))
     zero = Tape(streams={})
     env = cfg.env(P)
     return _render(env, entry, api, _mk_data(dseed, cfg.is_async, zero), zero)[0]
@@ -464,8 +499,9 @@ def run(tape: Tape) -> Outcome:
     cache_size = CACHE_SIZES[tape.draw(len(CACHE_SIZES))]
     tagged_ok = tape.draw(8) == 7
     size = 1 + tape.draw(4)
+    envcls = (0, 0, 0, 0, 0, 1, 2, 2)[tape.draw(8, "m")]
     P = Gen(tape, is_async=is_async, loopcontrols=lc, size=size, allow_module_state=tagged_ok,
-            env_globals=True, template_globals=True).generate()
+            env_globals=True, template_globals=True, native=envcls == 1).generate()
     TG.clear()
     # only the top-level template gets template-level globals: a template that is also included /
     # imported / extended elsewhere would (by documented design) keep them in the cache
@@ -475,8 +511,9 @@ def run(tape: Tape) -> Outcome:
     v2 = tape.draw(4)
     if v2 and "base" in P.templates:
         TG["base"] = 10 + v2  # 'base' is only ever extended (the child's context is used then), never included/imported
-    cfg = Cfg(is_async, ae, lc, cache_size, True)
-    ISOLATED[0] = 99 if tape.draw(32) == 31 else 0  # one run in 32 takes ALL its references from pristine interpreters
+    cfg = Cfg(is_async, ae, lc, cache_size, True, envcls)
+    out.count("env_class_" + ("Environment", "NativeEnvironment", "SandboxedEnvironment")[envcls])
+    ISOLATED[0] = 99 if tape.draw(64) == 63 and not __import__("os").environ.get("NOISO") else 0  # one run in 64 takes ALL its references from pristine interpreters
     out.count("runs_with_pristine_process_references", 1 if ISOLATED[0] else 0)
     gc_was = gc.isenabled()
     gc.disable()
